@@ -67,13 +67,17 @@ def check_case(case):
         if isinstance(got, Raised) and got.type == "ValueError" and "not applicable" in got.msg:
             r.outcome("refused (C02's business)")
             return False
-        if isinstance(p_succ, RefState) and isinstance(got, RefState) and same_state(got, p_succ):
-            r.outcome("parser-fault (C01's business)")
-            return False
+        at_parse_time = isinstance(p_succ, RefState) and isinstance(got, RefState) and same_state(got, p_succ)
+        if at_parse_time:
+            # the structure built at parse time already reads differently from the text (C01 reports it too); the
+            # successor is wrong for the effects as written all the same
+            r.outcome("disagree-already-at-parse-time")
         r.outcome("disagree")
-        r.fail("successor" if order is None else "successor-order",
+        r.fail(("successor-as-written" if at_parse_time else "successor") if order is None else "successor-order",
                f"call (a {' '.join(args)}) state={st.to_json()} order={order}: implementation={show(got)} "
-               f"expected={show(s_succ)} parsed-reading={show(p_succ)} eff={case['eff']} pre={case['pre']}",
+               f"expected={show(s_succ)} parsed-reading={show(p_succ)}"
+               f"{' (the parsed structure already differs from the text)' if at_parse_time else ''} "
+               f"eff={case['eff']} pre={case['pre']}",
                expected=show(s_succ), observed=show(got), tags=case.get("tags", []))
         return True
 
@@ -82,9 +86,12 @@ def check_case(case):
         for c in caps:
             r.count("cap:" + c.split(" ")[0])
         judged = []
+        refused = []
         for st in states:
             if ref_applicable(pg.S, "a", args, st, pg.objs) is not True:
                 r.outcome("skip-inapplicable")
+                if ref_applicable(pg.S, "a", args, st, pg.objs) is False and len(refused) < 3:
+                    refused.append(st)
                 continue
             s_succ = ref_successor(pg.S, "a", args, st, pg.objs)
             if not isinstance(s_succ, RefState):
@@ -102,10 +109,66 @@ def check_case(case):
                 return r
         if r.fails or not judged:
             continue
+        # the rarely used switches: on an applicable action they change nothing about the successor
+        for st, s_succ, p_succ in judged:
+            for kw in ({"skip_validation": True}, {"allow_inapplicable_actions": True}):
+                lib_st, prob = pg.lib_state(st)
+                got = observe(guard(lambda: pg.op("a", args, prob).apply(lib_st, **kw)))
+                r.count("transitions")
+                r.count("switches")
+                if judge(got, s_succ, p_succ, args, st, f"apply(..., {list(kw)[0]}=True) on a fresh operator"):
+                    break
+            if r.fails:
+                break
+        if r.fails:
+            continue
+        # one operator applied to its own successor, twice (where the reference defines the chain)
+        for st, s_succ, p_succ in judged[:2]:
+            chain, cur = [], s_succ
+            for _ in range(2):
+                if ref_applicable(pg.S, "a", args, cur, pg.objs) is not True:
+                    break
+                cur = ref_successor(pg.S, "a", args, cur, pg.objs)
+                if not isinstance(cur, RefState):
+                    break
+                chain.append(cur)
+            if not chain:
+                continue
+            lib_st, prob = pg.lib_state(st)
+
+            def run_chain():
+                op = pg.op("a", args, prob)
+                s, outs = op.apply(lib_st), []
+                for _ in chain:
+                    s = op.apply(s)
+                    outs.append(observe_state(s))
+                return outs
+            got = guard(run_chain)
+            r.count("transitions", len(chain))
+            r.count("chains")
+            ok = not isinstance(got, Raised) and all(_same_state(g, e, exact=False) for g, e in zip(got, chain))
+            if not ok:
+                def fresh_chain():
+                    s, outs = pg.op("a", args, prob).apply(pg.lib_state(st)[0]), []
+                    for _ in chain:
+                        s = pg.op("a", args, prob).apply(s)
+                        outs.append(observe_state(s))
+                    return outs
+                fr = guard(fresh_chain)
+                if not isinstance(fr, Raised) and all(_same_state(g, e, exact=False) for g, e in zip(fr, chain)):
+                    last = got[-1] if not isinstance(got, Raised) else got
+                    judge(last, chain[-1], None, args, st, "one operator applied to its own successors")
+                    break
+        if r.fails:
+            continue
         # ONE operator object applied to every state in turn (each state short-lived)
         reused = guard(lambda: pg.op("a", args, pg.lib_state(judged[0][0])[1]))
         if not isinstance(reused, Raised):
-            for st, s_succ, p_succ in judged:
+            for k, (st, s_succ, p_succ) in enumerate(judged):
+                if refused:
+                    # the error path in between: an application that is refused (the caller catches the error)
+                    guard(lambda: reused.apply(pg.lib_state(refused[k % len(refused)])[0]))
+                    r.count("refused-in-between")
                 got = observe(guard(lambda: reused.apply(pg.lib_state(st)[0])))
                 r.count("transitions")
                 r.count("operator-reuse")
